@@ -107,25 +107,25 @@ def _host_guard(facts, s):
 
 
 TABLE = {
-    r"^client::conn::transport::tcp::TcpConnecting::connect::.*\|duration-arith\|div": ("guarded", "timeout / addresses.len(): the division is under the non-empty guard of the address list (C11.6 checks the guard)", None),
-    r"^happy_eyeballs::EyeballSet::process_all::\{closure#0\}\|panic\|panic_fmt": ("by-construction", "unreachable!/panic! on an internal state of the eyeball set (queue/task bookkeeping), not on request data"),
+    r"^client::conn::transport::tcp::TcpConnecting::connect\|duration-arith\|div": ("guarded", "timeout / addresses.len(): the division is under the non-empty guard of the address list (C11.6 checks the guard)", None),
+    r"^happy_eyeballs::EyeballSet::process_all\|panic\|panic_fmt": ("by-construction", "unreachable!/panic! on an internal state of the eyeball set (queue/task bookkeeping), not on request data"),
     r"^happy_eyeballs::EyeballSet::len\|assert-Overflow": ("by-construction", "queue.len() + tasks.len(): bounded by the number of resolved addresses"),
-    r"^body::Body::as_boxed::\{closure#\d\}\|panic\|panic\|internal error: entered unreachable code": ("by-construction", "map_err on an Infallible error type"),
+    r"^body::Body::as_boxed\|panic\|panic\|internal error: entered unreachable code": ("by-construction", "map_err on an Infallible error type"),
     r"^<bridge::io::TokioIo as tokio::io::AsyncRead>::poll_read\|assert-Overflow": ("by-construction", "filled + sub_filled <= capacity of one buffer"),
     r"^client::builder::Builder::build_service\|result-unwrap\|expect\|user-agent should be a valid http header\|<=HeaderValue::from_str$": ("constant-input", "user agent assembled from crate constants at build time, not from a request"),
     r"^<client::pool::checkout::Checkout as futures_core::Future>::poll\|panic\|panic_fmt": ("by-construction", "ConnectingWithDelayDrop(None) exists only after as_delayed() moved the connector out, which happens in drop: polling afterwards is impossible"),
-    r"^client::pool::key::TokenMap::insert::\{closure#0\}\|option-unwrap\|unwrap\|<=Option::or$": ("by-construction", "checked_add(1).or(NonZero::new(1)) is always Some"),
-    r"^<client::pool::key::UriKey as std::convert::TryFrom>::try_from::\{closure#0\}\|result-unwrap\|unwrap\|<=Uri::from_parts$": ("by-construction", "Uri::from_parts of parts obtained from Uri::into_parts round-trips"),
+    r"^client::pool::key::TokenMap::insert\|option-unwrap\|unwrap\|<=Option::or$": ("by-construction", "checked_add(1).or(NonZero::new(1)) is always Some"),
+    r"^<client::pool::key::UriKey as std::convert::TryFrom>::try_from\|result-unwrap\|unwrap\|<=Uri::from_parts$": ("by-construction", "Uri::from_parts of parts obtained from Uri::into_parts round-trips"),
     r"^client::pool::PoolInner::\w+\|option-unwrap\|unwrap\|<=Pooled::take$": ("guarded", "Pooled::take() of the Pooled that was just built with connection: Some(..) and bounced back by oneshot send()", lambda facts, s: _take_of_bounced(facts, s)),
     r"^client::conn::transport::TransportExt::with_optional_tls\|panic": ("by-construction", "builder-time assertion (configuration), not on the request path"),
-    r"^client::Client::get::\{closure#0\}\|result-unwrap\|unwrap\|<=Builder::body$": ("by-construction", "Request::builder() with only a uri and method GET: building cannot fail for a Uri value"),
-    r"^service::host::set_host_header::\{closure#0\}\|option-unwrap\|expect\|authority implies host\|<=Uri::host$": ("guarded", "reached only after uri.host() was checked to be present", _host_guard),
-    r"^service::host::set_host_header::\{closure#0\}\|result-unwrap\|expect\|uri host is valid header value\|<=\?$": ("by-construction", "every byte http::Uri accepts in a host (and a decimal port) is a legal header-value byte"),
+    r"^client::Client::get\|result-unwrap\|unwrap\|<=Builder::body$": ("by-construction", "Request::builder() with only a uri and method GET: building cannot fail for a Uri value"),
+    r"^service::host::set_host_header\|option-unwrap\|expect\|authority implies host\|<=Uri::host$": ("guarded", "reached only after uri.host() was checked to be present", _host_guard),
+    r"^service::host::set_host_header\|result-unwrap\|expect\|uri host is valid header value\|<=\?$": ("by-construction", "every byte http::Uri accepts in a host (and a decimal port) is a legal header-value byte"),
     r"^service::http::http1::authority_form\|result-unwrap\|expect\|authority is valid\|<=Uri::from_parts$": ("by-construction", "Uri::from_parts with only an authority taken from a valid Uri is authority-form"),
     r"^service::http::http1::origin_form\|result-unwrap\|expect\|path is valid uri\|<=Uri::from_parts$": ("by-construction", "Uri::from_parts with only the path_and_query of a valid Uri is origin-form"),
     r"^service::http::http1::origin_form\|panic\|panic\|assertion failed: Uri::default\(\)": ("constant-input", "debug_assert on a constant expression"),
     r"^<&str as helpers::IntoRequestParts>::into_request_parts\|result-unwrap\|unwrap\|<=Builder::body$|^<http::Uri as helpers::IntoRequestParts>::into_request_parts\|result-unwrap\|unwrap\|<=Builder::body$": ("by-construction", "test/convenience helper for building request parts from a caller-supplied address (TransportExt::oneshot); a malformed &str is the caller's literal, the http::Uri form cannot fail"),
-    r"^polled_span::\{closure#0\}\|option-unwrap\|expect\|Missing ID; this is a bug\|<=Span::id$": ("by-construction", "tracing span bookkeeping"),
+    r"^polled_span\|option-unwrap\|expect\|Missing ID; this is a bug\|<=Span::id$": ("by-construction", "tracing span bookkeeping"),
     r"^<stream::tcp::TcpStream as info::HasConnectionInfo>::info\|result-unwrap\|expect\|(peer|local)_addr is available for stream\|<=TcpStream::(peer|local)_addr$": ("by-construction", "getpeername/getsockname on a socket that connect() just reported as connected"),
     r"^<stream::unix::UnixStream as info::HasConnectionInfo>::info\|result-unwrap\|expect\|(peer|local)_addr is available for unix stream\|<=UnixStream::(peer|local)_addr$": ("by-construction", "address of a connected unix socket; the path is the caller's own configuration"),
     r"^<rewind::Rewind as hyper::rt::Read>::poll_read\||^rewind::put_slice\|": ("guarded", "n = min(prefix.len(), remaining): C08.5"),
